@@ -19,7 +19,7 @@ Separate Extraction Z.add Z.mul Z.div Z.modulo Z.opp Z.sub Z.of_nat Z.to_nat Z.o
   Proxy.new_peer Proxy.bytes_null Proxy.bytes_denull
   FastSync.ff_decide FastSync.ff_decide_fixed FastSync.core_ff FastSync.core_ff_fixed FastSync.node_ff
   FastSync.node_ff_fixed FastSync.core_ff_gen FastSync.node_ff_gen FastSync.rule_current FastSync.rule_fixed
-  FastSync.distinct_valid_signers FastSync.ffres_class
+  FastSync.distinct_valid_signers FastSync.ffres_class FastSync.node_step_gen FastSync.known_after FastSync.nres_adopted
   Wire.set_wire_info Wire.to_wire Wire.read_wire Wire.wire_rt Wire.json_rt_wevent Wire.json_rt_itx Wire.json_rt_block Wire.json_rt_frame Wire.db_rt Wire.ug_rt_frame Wire.frame_digest Wire.view_frame Wire.view_block Wire.same_event_hash Wire.verify_preserved Wire.same_itx_hash Wire.same_body_hash Wire.same_block_hash Wire.same_frame_hash
   Wire.insert_frame_events Wire.insert_frame_event_prefix Wire.itx_text_ok Wire.event_text_ok Wire.frame_text_ok
   Hostile.mkFixes Hostile.decode_from_string Hostile.decode_signature Hostile.to_public_key Hostile.keys_verify
